@@ -66,8 +66,13 @@ class XlsxRT:
                 cands = [(sig, what, detail)]
             else:
                 cands = []
+                # a cell holding an unparsable formula is read again by the importer (recorded finding); the values
+                # of the formulas that read it change with it: consequences, counted under that finding
+                reread = any(classify_diff(cc, d2)[1] == "unparsable-formula-reread" for cc in ("cells", "styles") for d2 in ev["diff"].get(cc, []))
                 for dd in ev["diff"].get(comp, []) or [""]:
                     np, kind, detail = classify_diff(comp, dd)
+                    if reread and kind == "changed" and comp in ("cells", "styles") and (np.endswith(".fmt") or ".v." in np or np.endswith(".t")):
+                        kind = "unparsable-formula-reread"
                     cands.append((f"C24|{comp}|{np}|{kind}", f"{comp} differ after export+import at {np} ({kind}): {detail[:200]}", detail))
             for sig, what, detail in cands:
                 if sig in seen:
